@@ -52,7 +52,7 @@ class Repr(Slice):
 
     def gen(self, rng, index, tier):
         n = ALL[index % len(ALL)]
-        addr = 4 * rng.choice([0, 0, 1, 2, 7, 100, 1000, rng.randrange(0, 1000)])
+        addr = 4 * rng.choice([0, 0, 1, 2, 7, 100, rng.randrange(0, 100)] + ([1000, rng.randrange(0, 1000)] if tier == "thorough" else []))
         t = rnd_instr(rng, n)
         if fmt_kind(n) == "J":
             t[3] = t[2] + addr
